@@ -141,7 +141,38 @@ def impl_obj(p):
                                None if p['range'] is None else (float(p['range'][0]), float(p['range'][1])))
 
 
+EVAL_PROBLEMS = []
+
+
+def eval_check(o):
+    """A merged correlation must *evaluate* to its merged data, not only store them: H/RT and S/R at T_ref are the stored
+    reference values (the internal interpolant has to be rebuilt whenever any datum arrives).  Problems are collected here and
+    reported by run()."""
+    import warnings
+    try:
+        T = float(o.T_ref)
+        r = o.get_range()
+        if r is not None and not (float(r[0]) <= T <= float(r[1])):
+            return
+        for name, stored, fn in (('H', o.ND_H_ref, o.get_HoRT), ('S', o.ND_S_ref, o.get_SoR)):
+            if stored is None or type(stored).__name__ == 'Quantity':
+                continue
+            with warnings.catch_warnings():
+                warnings.simplefilter('ignore')
+                try:
+                    got = float(fn(T))
+                except Exception as e:
+                    got = 'err:' + type(e).__name__
+            if isinstance(got, str) or abs(got - float(stored)) > 1e-9 * (1 + abs(float(stored))):
+                if len(EVAL_PROBLEMS) < 20:
+                    EVAL_PROBLEMS.append({'datum': name, 'stored': float(stored), 'evaluated_at_T_ref': got, 'T_ref': T,
+                                          'cp_points': len(o.ND_Cp_data or {}), 'range': None if r is None else [float(r[0]), float(r[1])]})
+    except Exception:
+        return
+
+
 def obs_obj(o):
+    eval_check(o)
     s = L.obs_corr(o)
     s['built'] = hasattr(o, '_correlation')
     s['order'] = [float(T) for T in (o.ND_Cp_data or {})]
@@ -824,6 +855,11 @@ def run(ctx):
     check_splits(ctx, rng, ctx.n(120, 900), batch)
     check_lib_sequences(ctx, rng, ctx.n(200, 2500), batch)
     compare_batch(ctx, batch)
+    ctx.count('eval_check_problems', len(EVAL_PROBLEMS))
+    for pr in EVAL_PROBLEMS[:3]:
+        ctx.violation('a merged correlation does not evaluate to its merged data: the value at T_ref is not the stored reference value',
+                      pr, expected=pr['stored'], observed=pr['evaluated_at_T_ref'])
+    del EVAL_PROBLEMS[:]
     ctx.assumption('A-ref', True, '%d wholes evaluated at their reference temperature, max relative deviation %.2e' %
                    (_ref_checked[0], _ref_checked[1]))
     from .c12 import reach_floor
